@@ -45,7 +45,7 @@ impl LinkS {
             r is Err && r->Err_0 is ClosedByRemote ==> old(self).st is DetachSent && detach.closed && detach.error is None,
     { unimplemented!() }
 }
-opaque!(Attach, LinkFlow, Disposition, Transfer, Payload, AcqMarker, InputHandle, AttachErrorS);
+opaque!(Attach, LinkFlow, Disposition, Transfer, Payload, AcqMarker, InputHandle, AttachErrorS, AttachExchangeS);
 pub enum LinkFrame { Attach(Attach), Flow(LinkFlow), Transfer { input_handle: InputHandle, performative: Transfer, payload: Payload }, Disposition(Disposition), Detach(Detach), Acquisition(AcqMarker) }
 /// `errs`: how many of the detaches taken from the channel so far carried an error
 pub struct Rx { pub got: Ghost<Seq<LinkFrame>>, pub errs: Ghost<nat> }
@@ -56,7 +56,8 @@ impl Rx {
         ensures (match r { Some(f) => final(self).got@ == old(self).got@.push(f) && final(self).errs@ == old(self).errs@ + detach_err(f), None => final(self).got@ == old(self).got@ && final(self).errs@ == old(self).errs@ }),
     { unimplemented!() }
 }
-pub struct EndS { pub link: LinkS, pub sent: Ghost<Seq<(bool, Option<AmqpError>)>>, pub has_handle: Ghost<bool>, pub failures: Ghost<nat>, pub incoming: Rx }
+/// `attaches` (ghost): how many attach frames this endpoint has queued
+pub struct EndS { pub link: LinkS, pub sent: Ghost<Seq<(bool, Option<AmqpError>)>>, pub has_handle: Ghost<bool>, pub failures: Ghost<nat>, pub incoming: Rx, pub attaches: Ghost<nat> }
 
 pub open spec fn send_legal(st: LinkState, closed: bool) -> bool {
     match (st, closed) {
@@ -76,13 +77,49 @@ impl EndS {
     pub fn reader_mut(&mut self) -> (r: &mut Rx)
         ensures *r == old(self).incoming, final(self).incoming == *final(r), final(self).sent == old(self).sent, final(self).failures == old(self).failures, final(self).link == old(self).link, final(self).has_handle == old(self).has_handle,
     { unimplemented!() }
-    /// LinkEndpointInnerReattach::reattach_inner: a fresh output handle from the session, then the attach exchange
+    /// LinkEndpointInner::reallocate_output_handle: a fresh relay and a fresh output handle from the session (session::allocate_link, unit SESSION); the handle is stored in the link
     #[verifier::external_body]
-    pub fn reattach_inner(&mut self) -> (r: Result<(), AttachErrorS>)
-        ensures final(self).sent == old(self).sent, final(self).failures@ >= old(self).failures@, final(self).incoming.got@.len() >= old(self).incoming.got@.len(),
-            r is Ok ==> final(self).link.st is Attached && final(self).has_handle@,
-            r is Ok ==> final(self).incoming.errs@ == old(self).incoming.errs@,   // ASSUMED: the attach exchange takes the peer's attach off the channel; a detach instead of it fails the re-attach
+    pub fn reallocate_output_handle(&mut self) -> (r: Result<(), AttachErrorS>)
+        ensures
+            final(self).sent == old(self).sent, final(self).link == old(self).link, final(self).attaches == old(self).attaches, final(self).failures@ >= old(self).failures@,
+            final(self).incoming.errs == old(self).incoming.errs, final(self).incoming.got@.len() >= old(self).incoming.got@.len(),
+            r is Ok ==> final(self).has_handle@, r is Err ==> final(self).has_handle == old(self).has_handle,
     { unimplemented!() }
+    /// exchange_attach(is_reattaching): Link::send_attach (unit LINK, [C13.link.attach-only-when-unattached]: an attach is written only from Unattached / Detached / DetachSent / AttachReceived and with a handle) and then
+    /// the wait for the peer's attach. ASSUMED about the wait: it takes the peer's attach off the channel, a detach instead of it fails the exchange
+    #[verifier::external_body]
+    pub fn exchange_attach(&mut self, is_reattaching: bool) -> (r: Result<AttachExchangeS, AttachErrorS>)
+        ensures
+            final(self).sent == old(self).sent, final(self).has_handle == old(self).has_handle, final(self).failures@ >= old(self).failures@,
+            final(self).incoming.got@.len() >= old(self).incoming.got@.len(),
+            !(old(self).link.st is Unattached || old(self).link.st is Detached || old(self).link.st is DetachSent || old(self).link.st is AttachReceived) || !old(self).has_handle@
+                ==> r is Err && final(self).attaches == old(self).attaches && final(self).link == old(self).link && final(self).incoming == old(self).incoming,
+            final(self).attaches@ == old(self).attaches@ || final(self).attaches@ == old(self).attaches@ + 1,
+            r is Ok ==> final(self).attaches@ == old(self).attaches@ + 1 && final(self).incoming.errs@ == old(self).incoming.errs@,
+    { unimplemented!() }
+    /// Link::handle_attach_error: may answer a refused attach with a detach of its own; returns the error to report. ASSUMED: it keeps what it is given unless an attach had been written
+    #[verifier::external_body]
+    pub fn handle_attach_error(&mut self, e: AttachErrorS) -> (r: AttachErrorS)
+        ensures final(self).attaches == old(self).attaches, final(self).incoming.got@.len() >= old(self).incoming.got@.len(), final(self).failures@ >= old(self).failures@,
+            final(self).sent == old(self).sent, final(self).has_handle == old(self).has_handle,
+    { unimplemented!() }
+    /// handle_reattach_outcome (sender / receiver): Complete => Ok, anything else => IllegalState
+    #[verifier::external_body]
+    pub fn handle_reattach_outcome(&mut self, o: AttachExchangeS) -> (r: Result<(), AttachErrorS>)
+        ensures *final(self) == *old(self), r is Ok ==> final(self).link.st is Attached,
+    { unimplemented!() }
+
+//@@ fn file=fe2o3-amqp/src/link/shared_inner.rs impl=`~LinkEndpointInnerReattach` name=reattach_inner
+//@@ qmark
+//@@ ret Result<(), AttachErrorS>
+//@@ spec
+    ensures
+        final(self).sent == old(self).sent, final(self).failures@ >= old(self).failures@, final(self).incoming.got@.len() >= old(self).incoming.got@.len(),
+        r is Ok ==> final(self).link.st is Attached && final(self).has_handle@,
+        r is Ok ==> final(self).incoming.errs@ == old(self).incoming.errs@,
+        final(self).has_handle@ && !old(self).has_handle@ ==> final(self).attaches@ > old(self).attaches@,      // [C13.link.no-handle-without-attach] a handle taken for a re-attach is kept only if the attach for it was actually written: a handle left behind by a re-attach that failed before its attach went out is detached once more by Drop (`detach{closed}` for a handle that was never attached: the second detach for one attach)
+//@@ end
+
     /// contracts [C13.link.one-detach] / [C13.link.detach-frame] / [C13.link.close-answered-by-close] of unit LINK
     #[verifier::external_body]
     pub fn send_detach(&mut self, closed: bool, error: Option<AmqpError>) -> (r: Result<(), DetachError>)
@@ -108,6 +145,7 @@ impl EndS {
 #[verifier::external_body]
 pub fn detach_error_from_stop_reason(e: &EndS) -> (r: DetachError) ensures r is SessionStopped || r is IllegalState { unimplemented!() }
 pub trait ErrInto<T>: Sized { spec fn conv(self) -> T; fn err_into(self) -> (r: T) ensures r == self.conv(); }
+impl ErrInto<AttachErrorS> for AttachErrorS { open spec fn conv(self) -> AttachErrorS { self } fn err_into(self) -> (r: AttachErrorS) { let e = self; assert(e == <AttachErrorS as ErrInto<AttachErrorS>>::conv(self)); e } }
 impl ErrInto<DetachError> for DetachError { open spec fn conv(self) -> DetachError { self } fn err_into(self) -> (r: DetachError) { let e = self; assert(e == <DetachError as ErrInto<DetachError>>::conv(self)); e } }
 
 //@@ fn file=fe2o3-amqp/src/link/shared_inner.rs name=recv_remote_detach
